@@ -37,7 +37,7 @@ class C01(E1):
 
 class C02(E1):
     ID = "C02"
-    TECHNIQUE = ('deterministic simulation: seeded executor histories incl. overrun next() calls; phase-grammar and coverage monitors on the reference machine; bounded-liveness step cap')
+    TECHNIQUE = ('deterministic simulation with fault injection: seeded executor histories incl. overrun next() calls and injected finalize() calls that must be rejected; phase-grammar and coverage monitors on the reference machine; bounded-liveness step cap')
     EXPECTED_PROBES = ('second_pass_runs',)
     OVERRUN = 3
     BAD_FIN = 0.1
@@ -156,7 +156,7 @@ class C04(E1):
 
 class C08(E1):
     ID = "C08"
-    TECHNIQUE = ('deterministic simulation with observer injection: counters read after every event and at seeded instants, compared with the reference machine')
+    TECHNIQUE = ('deterministic simulation with observer and fault injection: counters read after every event and at seeded instants (also around injected finalize() calls that must be rejected), compared with the reference machine')
     EXPECTED_PROBES = ('second_pass_runs', 'obs_before_first_next')
     OBS_RATE = 0.25
     BAD_FIN = 0.1
